@@ -8,6 +8,9 @@
 //!       oracle inside the harness: all of them are identical (else `order-dependent`).
 //! obs:  {"action": that action, "cmp":[[i,j,-1|0|1]…]} — `Rule::cmp(rules[i], rules[j])` for the listed pairs.
 //!
+//! Tie families shared with c05 (`c05::uuid_tie_groups` in every run, `c05::prefix_tie_groups` per hinted length): equal-rank
+//! rules whose ids share long prefixes / are prefixes of each other / differ at one byte, with order-revealing effects.
+//!
 //! Second case kind {"kind":"markers", …} (review C11-1): rules with 2-3 markers / variables (equal and prefix-related
 //! name lengths) used in target, header filter value and body filter values; substitution is NOT modelled (C10 owns it),
 //! the oracles are on the implementation alone: the serialised action is the same over 24 evaluations in one process
